@@ -3,8 +3,19 @@ from . import common, cmds
 
 
 def run(ctx):
-    tr, s = cmds.run_calls(ctx, "MCCommands_quick.cfg" if ctx.quick() else "MCCommands_thorough.cfg", 600 if ctx.quick() else 20000, "dirty")
+    import os, re
+    pre = os.path.join(ctx.subdir("cmd-pre"), "pre.ndjson")
+    tr, s = cmds.run_calls(ctx, "MCCommands_quick.cfg" if ctx.quick() else "MCCommands_thorough.cfg", 600 if ctx.quick() else 20000, "dirty", preout=pre)
     tot, ex = cmds.verdicts(ctx, tr, "C08OK (framing + verb) per recorded call")
+    # calls made before the first Connect: only the framing / verb rule applies to whatever they put on the wire
+    ok, msg, r = ctx.validate_trace("CommandsTrace.tla", "CommandsTrace.cfg", pre, what="command methods called before the first Connect: C08OK of whatever reaches the wire")
+    m = re.search(r'"VERDICT",\s*"C08",\s*(\d+)', r.out)
+    if not m:
+        raise common.Inconclusive("no verdict for the pre-connect calls:\n" + "\n".join(r.out.splitlines()[-20:]))
+    if int(m.group(1)):
+        rp = ctx.save_replay(pre, "c08-preconnect-trace.ndjson")
+        ex0 = re.findall(r'"NONCONFORMING-C08",\s*\d+,\s*(\[.*?\])\s*>>', r.out, re.S)
+        ctx.violation("cmd/wire-not-ok/pre-connect", "%s command calls made before the first Connect put bytes on the wire (after it) that are not whole CRLF-terminated lines of the method's verb, e.g. %s" % (m.group(1), [re.sub(r"\s+", " ", e)[:400] for e in ex0[:1]]), rp)
     if tot["C08"]:
         rp = ctx.save_replay(tr, "c08-trace.ndjson")
         ctx.violation("cmd/wire-not-ok", "%d recorded calls put bytes on the wire that are not whole CRLF-terminated lines of the method's verb, e.g. %s" % (tot["C08"], ex["C08"][:1]), rp)
